@@ -532,6 +532,32 @@ Proof.
   - rewrite E. cbn. apply IH.
 Qed.
 
+(* committed prefixes never change *)
+Lemma committed_firstn_stable cfg s1 s2 :
+  cfg_fifo cfg = true -> reachable cfg s1 -> steps cfg s1 s2 ->
+  forall i j idx, idx <= s_commit (srv s1 i) -> idx <= s_commit (srv s2 j) ->
+    firstn idx (s_log (srv s2 j)) = firstn idx (s_log (srv s1 i)) /\ idx <= List.length (s_log (srv s1 i)).
+Proof.
+  intros Hf Hr Hs i j idx Hki Hkj.
+  destruct (reachable_areach _ _ Hr) as (g1 & a1 & Ha1).
+  pose proof (areach_cinv _ _ _ _ Hf Ha1) as IC1.
+  pose proof (covered_len _ _ _ _ _ _ _ (C1 _ _ _ _ IC1 i)) as Li. pose proof (cbound_ge (srv s1 i)) as Bi.
+  split; [|lia].
+  destruct (Nat.eq_dec idx 0) as [->|Hnz]; [reflexivity|].
+  destruct (areach_steps _ _ _ _ _ Hf Ha1 Hs) as (g2 & a2 & Ha2 & Hp & Hc).
+  pose proof (areach_greach _ _ _ _ Ha2) as Hg2. pose proof (greach_linv _ _ _ Hg2) as I2.
+  pose proof (areach_binv _ _ _ _ Hf Ha2) as IB2. pose proof (areach_cinv _ _ _ _ Hf Ha2) as IC2.
+  pose proof (cbound_ge (srv s2 j)) as Bj.
+  destruct (C1 _ _ _ _ IC1 i) as [Z|(t & k & Ci & Hk & _ & Ei & _)]; [lia|].
+  destruct (C1 _ _ _ _ IC2 j) as [Z|(t' & k' & Cj & Hk' & _ & Ej & _)]; [lia|].
+  pose proof (Hc _ _ Ci) as Ci2. destruct Ci as [_ Ow1]. destruct (own_len _ _ _ Ow1) as [_ Hlen1].
+  rewrite <- (firstn_firstn_le idx (cbound (srv s2 j)) (s_log (srv s2 j))) by lia.
+  rewrite <- (firstn_firstn_le idx (cbound (srv s1 i)) (s_log (srv s1 i))) by lia.
+  rewrite Ei, Ej, !firstn_firstn_le by lia.
+  rewrite (cpt_agree cfg s2 g2 a2 t' k' t k idx I2 IB2 Cj Ci2) by lia.
+  apply firstn_prefix_stable; [apply Hp|lia].
+Qed.
+
 (* committed entries never change: what is within some commit index now is what every server will ever hold there once it
    commits that index *)
 Theorem committed_stable_lemma cfg s1 s2 :
